@@ -344,7 +344,10 @@ def run_obligation(pid, obl, tier):
                                (rc, status, " | ".join(msgs[-5:]), err))
         return res
     reach_ok, reach_fail, viol, unwind, nprops, errors = classify(results, obl)
-    if errors:
+    # UNKNOWN is also what CBMC reports for properties that are only reachable
+    # after a *fatal* failed property; so a missing verdict only makes the
+    # obligation inconclusive when nothing failed
+    if errors and not viol and not (obl.get("termination") and unwind):
         res["status"] = "inconclusive"
         res["n_props"] = nprops
         res["messages"].append("solver returned no verdict for %d properties (%s)" % (len(errors), "; ".join(msgs[-2:])))
